@@ -47,6 +47,14 @@ MCArgs(name, h, dep) ==
     [] name = "KvSplit"     -> {[obj |-> "a", nodes |-> n] : n \in SeqsUpTo(NodePool(U), IF Rich THEN 2 ELSE 1)}
     [] name = "KvConvert"   -> {[obj |-> "a", cls |-> c] : c \in {"int", "Fraction"}}
     [] name = "KvCopy"      -> {[obj |-> "a"]}
+    [] name = "KvValueOp"   -> {[obj |-> "a", op |-> vo, nodes |-> n, by |-> Zero] :
+                                   vo \in {"add_nodes", "sub_nodes"}, n \in MultisetsUpTo(NodePool(U), 1) \ {<<>>}}
+                                \cup {[obj |-> "a", op |-> vo, nodes |-> <<>>, by |-> b] :
+                                   vo \in {"add", "sub", "mul", "rmul", "div"}, b \in {Two, Q(-1, 2), Zero, Q(1, 3)}}
+    [] name = "KvEq"        -> {[obj |-> "a", seq |-> x] :
+                                   x \in {U, InsertKV(U, <<Mid(Umin(U), Umax(U))>>).kv, ShiftKV(U, One).kv,
+                                          <<Umax(U), Umin(U)>>, <<Umin(U), Umax(U)>>, <<>>, <<Umin(U)>>,
+                                          SetDegreeKV(U, Deg(U) + 1).kv}}
     [] name = "FnBasis"     -> IF dep = 0 THEN {} ELSE
                                {[obj |-> "a", weights |-> <<>>, j |-> Deg(U), u |-> u] : u \in ParamGrid(U, 1)}
     [] OTHER -> {}
